@@ -45,6 +45,7 @@ def run(chk):
     )
     chk.rule("R1", "Summarize: visible columns = grouping columns (minus overwritten) + aggregates, grouping emptied, in all three siblings")
     chk.rule("R2", "filter after summarize -> HAVING, otherwise WHERE; each Query field feeds exactly its own clause")
+    chk.rule("R9", "a computed grouping key is typed Const only when it is constant: CaseExpr.dtype / ColFn.dtype interpreted for every combination of child kinds (the SQL back ends leave Const keys out of GROUP BY)")
     chk.rule("R3", "every declared context keyword is consumed: read by both dispatchers or removed by ColFn.__init__ on every path")
     chk.rule("R4", "Polars: null-for-empty wrapper excludes exactly the counting aggregates; grouped agg vs single-row select")
     chk.rule("R5", "SQL Summarize: GROUP BY from the grouping state (constants skipped), grouping and ORDER BY cleared")
@@ -145,6 +146,10 @@ def run(chk):
             chk.ob("R2", sql, cq, f"compile_query with only query.{hot} set -> clauses {sorted(got)}", got == want,
                    f"with only `{hot}` set compile_query emits the clauses {sorted(got)}, expected {sorted(want)}")  # fmt: skip
     chk.floor("R2", "compile_query valuations", n2, 8)
+
+    from .. import colexprsim
+
+    colexprsim.report(chk, m, "R9", ["CaseExpr.dtype", "ColFn.dtype"], floor=25)
 
     # ---- R3 context keyword consumption (A7b)
     declared = sorted({k.name for op in cat.ops.values() for k in op.context_kwargs})
